@@ -3,7 +3,7 @@
    ExtrOcamlNativeString: [byte] -> OCaml [char] (256 constructors, listed in the stock file),
    [string] -> OCaml [string]. N/Z/positive/nat stay Coq's inductive types. *)
 From Coq Require Import Extraction ExtrOcamlBasic ExtrOcamlNativeString.
-From NfpmV Require Import Lib.Bytes Model.Path Model.Content Model.Prepare Model.Payload Model.Meta Model.Version Model.VerCmp Model.Cli Model.TypeTree Model.Expand Model.Merge Model.Writers Model.OutputProgs Spec.C06 Spec.C07 Model.History Model.Conc Model.Sharing Proofs.C12Proofs Spec.C13 Spec.C16 Spec.C14 Spec.C15 Spec.C05 Spec.C01 Spec.C08 Spec.C09 Spec.C03 Spec.C04 Spec.C02.
+From NfpmV Require Import Lib.Bytes Model.Path Model.Content Model.Prepare Model.Payload Model.Meta Model.Version Model.VerCmp Model.Cli Model.TypeTree Model.Expand Model.Merge Model.Writers Model.OutputProgs Spec.C06 Spec.C07 Spec.C10 Model.History Model.Conc Model.Sharing Proofs.C12Proofs Spec.C13 Spec.C16 Spec.C14 Spec.C15 Spec.C05 Spec.C01 Spec.C08 Spec.C09 Spec.C03 Spec.C04 Spec.C02.
 From NfpmV Require Import Gen.ArchTables Gen.TypeTree Gen.Schema.
 From NfpmV Require Import Gen.FsPaths.
 Extraction Language OCaml.
@@ -23,6 +23,6 @@ Extraction "model.ml"
   strict_accepts schema_validates is_unknown_key doc_keys_unique config_ty schema_emitted
   config_get merge vget check_C13 value_eqb
   check_write check_ref check_invalid check_cli_run deb_dest_writes ref_used must_reject do_package
-  check_build check_stamp
+  check_build check_stamp check_C10 deb_sig_member apk_sig_member
   model_private get_aliases model_run all_ops solo_private t_init script_of run_sched
   expand_kind expand_list expand_scalar default_scalar passphrase os_expand.
